@@ -198,6 +198,70 @@ class EnumSource(SymSource):
         return self.inner.fresh_exception(it)
 
 
+class ZipLongestSource(SymSource):
+    """itertools.zip_longest(a, b, ...) over opaque iterables.  Every part has a ghost length; the element at (ghost) index
+    k is the tuple of part_i[k] where k < len_i and None (the fill value) otherwise; at least one part is present.  The
+    index is tied to the loop's ghost iteration count by cut_for; exhaustion means k == max(len_i).
+    `shortest=True` gives zip(): all parts present, exhaustion at min(len_i)."""
+
+    def __init__(self, it, parts, shortest=False):
+        super().__init__('zip_longest')
+        self.parts = []
+        self.lens = []
+        for i, p in enumerate(parts):
+            kind, payload = iterate(it, p)
+            if kind == 'concrete':
+                raise Unsupported('zip_longest over a concrete part (only opaque parts are modelled)')
+            self.parts.append(payload)
+            ln = getattr(getattr(payload, 'seq', None), 'length', None)
+            if ln is None:
+                ln = it.fresh('ziplen%d' % i, IntS)
+                it.assume(ln >= 0)
+            self.lens.append(ln)
+        self.may_raise = any(getattr(p, 'may_raise', False) for p in self.parts)
+        self.shortest = shortest
+        m = self.lens[0]
+        for ln in self.lens[1:]:
+            m = z3.If(ln < m, ln, m) if shortest else z3.If(ln > m, ln, m)
+
+        class _S:
+            pass
+        self.seq = _S()
+        self.seq.length = m
+        self.start = 0
+        self.present = None
+        it.path.info.setdefault('zip_sources', []).append(self)      # ghost: lets a contract see which parts were present
+
+    def fresh_elem(self, it):
+        i = it.fresh('zidx', IntS)
+        it.assume(i >= 0)
+        self.index = i
+        out = []
+        for p, ln in zip(self.parts, self.lens):
+            if self.shortest:
+                it.assume(i < ln)
+                present = True
+            else:
+                present = it.branch(i < ln)
+            if present:
+                at = getattr(getattr(p, 'seq', None), 'at', None)
+                out.append(at(it, SV(i)) if at is not None else p.fresh_elem(it))
+            else:
+                out.append(None)
+        self.present = [x is not None for x in out]
+        return tuple(out)
+
+    def on_exhausted(self, it):
+        for p in self.parts:
+            p.on_exhausted(it)
+
+    def fresh_exception(self, it):
+        for p in self.parts:
+            if getattr(p, 'may_raise', False):
+                return p.fresh_exception(it)
+        return symbolic_exception(it, 'upstream_exc')
+
+
 class CompSource(SymSource):
     """iteration over the result of a symbolic comprehension [elem(x) for x in src if cond(x)]:
     an arbitrary element is elem(x) for an arbitrary x of src with cond(x)"""
@@ -398,7 +462,13 @@ def consume_comp(it, ge, kind):
     src.last_elem = elem
     vars = list(getattr(src, 'last_vars', []))
     if isinstance(src, StreamSource):
-        raise Unsupported('comprehension over a row stream (buffering)')
+        # a comprehension over a stream pulls ALL of it now (buffering): recorded as a Drain of that stream; the collected
+        # values are an opaque list (per-element effects of the element expression are not modelled)
+        if kind not in ('list', 'tuple', 'set'):
+            raise Unsupported('dict comprehension over a stream (buffering)')
+        it.emit(Ev('Drain', src=src.stream, how='comprehension'))
+        src.stream.drained = True
+        return SymList(SymSeq('buffered(%s)' % src.stream.name, it.fresh('buffered', IntS), None), [])
     it.assign_target(g.target, elem, e2)
     it.term_mode += 1
     it.guards.append([])
@@ -414,7 +484,18 @@ def consume_comp(it, ge, kind):
     finally:
         it.term_mode -= 1
         guards = it.guards.pop()
-    # exceptions raised by the body for some element
+    # exceptions raised by the body for some element (guards that hold for every element are dropped)
+    if guards:
+        pre = z3.And(*conds) if conds else z3.BoolVal(True)
+        kept = []
+        for gc, cl in guards:
+            g1 = z3.simplify(z3.Implies(pre, gc))
+            if z3.is_true(g1):
+                continue
+            if smt.check_valid(list(it.path.pc), g1, timeout_ms=3000).status == 'unsat':
+                continue
+            kept.append((gc, cl))
+        guards = kept
     if guards:
         gconds = [z3.Implies(z3.And(*conds) if conds else z3.BoolVal(True), gc) for gc, _ in guards]
         classes = {c for _, c in guards}
@@ -1038,6 +1119,14 @@ def getitem(it, obj, key):
             r = values_equal(it, k, key)
             if r is True or (r is not False and it.branch(r)):
                 return v
+        if getattr(obj, 'history', None) is not None:
+            # contents left by an arbitrary earlier use of the owning object: the key may be present, holding ANY value
+            if it.decide(2, lambda i: True) == 0:
+                v = it.uncell(it.fresh('hist_entry', Cell))
+                obj.d[key] = v
+                it.path.info['needs_invariant'] = 'a dict attribute filled by earlier calls was read and had the key'
+                return v
+            raise PyExc(ExcV('KeyError', (key,)))
         if getattr(obj, 'havocked', None) is not None:
             # accumulator filled by a cut loop: the entry exists (assumption recorded) and is opaque
             it.assumptions.add('dict accumulators filled per resource in the package phase have an entry for every '
@@ -1057,10 +1146,10 @@ def getitem(it, obj, key):
             return getitem(it, PyList(obj.items), key)
         if isinstance(key, int) and key < 0 and -key <= len(obj.items):
             return obj.items[key]
-        if not obj.items and getattr(obj.prefix, 'at', None) is not None:
-            return obj.prefix.at(it, key)
         if isinstance(key, slice):
             return havoc_list(it, 'slice', obj)
+        if not obj.items and getattr(obj.prefix, 'at', None) is not None:
+            return obj.prefix.at(it, key)
         if getattr(obj.prefix, 'mk_elem', None) is not None and obj.prefix.name.startswith('hv_'):
             # some element of a list whose contents are unknown (IndexError if empty is out of model: assumption)
             it.assumptions.add('indexing a list with unknown contents yields an arbitrary element (IndexError not modelled)')
@@ -1073,6 +1162,10 @@ def getitem(it, obj, key):
         if t.sort().eq(StrS):
             return str_index(it, t, key)
         if t.sort().eq(Cell):
+            if it.term_mode and it.guards:
+                # inside a term: subscripting a cell that is not a string is an implicit TypeError (guarded)
+                it.guards[-1].append((Cell.is_str(t), 'TypeError'))
+                return str_index(it, Cell.s(t), key)
             raise Unsupported('subscript of opaque cell')
     if isinstance(obj, SymSeq):
         raise Unsupported('index into opaque sequence')
@@ -1410,6 +1503,13 @@ def _pd_get(it, d, key, default=None):
         r = values_equal(it, k, key)
         if r is True or (r is not False and it.branch(r)):
             return v
+    if getattr(d, 'history', None) is not None:
+        if it.decide(2, lambda i: True) == 0:
+            v = it.uncell(it.fresh('hist_entry', Cell))
+            d.d[key] = v
+            it.path.info['needs_invariant'] = 'a dict attribute filled by earlier calls was read and had the key'
+            return v
+        return default
     if getattr(d, 'havocked', None) is not None:
         # contents unknown (filled by a cut loop / earlier history): the key may or may not be present
         if it.decide(2, lambda i: True) == 0:
@@ -1691,6 +1791,9 @@ def _cell_method(name):
     def m(it, c, *a, **k):
         # method call on an opaque cell: only allowed when the path condition fixes it to a string
         t = c.t
+        if it.term_mode and it.guards:
+            it.guards[-1].append((Cell.is_str(t), 'AttributeError'))
+            return it.call(BoundMethod(SV(Cell.s(t)), name, STR_METHODS[name]), list(a), k)
         if not smt.feasible(it.path.pc + [z3.Not(Cell.is_str(t))]):
             return it.call(BoundMethod(SV(Cell.s(t)), name, STR_METHODS[name]), list(a), k)
         raise Unsupported('method %s on a cell not known to be a string' % name)
@@ -2244,7 +2347,8 @@ def _b_callable(it, v):
 
 def _b_dict(it, src=None, **kw):
     if src is None:
-        d = PyDict()
+        # dict(k=v, ...): a fresh dict literal (no mutation of anything visible)
+        return PyDict(dict(kw))
     elif isinstance(src, GenExp):
         d = consume_comp(it, src, 'dict' if True else 'list')
         if isinstance(d, PyList):
@@ -2288,6 +2392,30 @@ class ListOfSet:
         self.oid = new_oid()
 
 
+def taken_list(it, st, ln, exact=True):
+    """the list of the `ln` elements just pulled from stream `st` (in order); element i is made on first access"""
+    first = {}
+
+    def mk(it_):
+        return st.mk_elem(it_), None
+
+    def at(it_, i):
+        ti = term(i, IntS)
+        ok = z3.And(ti >= -ln, ti < ln)
+        if not it_.branch(ok):
+            it_.raise_('IndexError', 'list index out of range')
+        key = str(z3.simplify(ti))
+        if key not in first:
+            first[key] = st.mk_elem(it_)
+        return first[key]
+    seq = SymSeq('taken(%s)' % st.name, it.fresh('taken', IntS), mk)
+    seq.length = ln
+    seq.at = at
+    if exact:
+        seq.taken_from = st
+    return SymList(seq, [])
+
+
 def _b_list(it, src=None):
     if src is None:
         return PyList()
@@ -2300,7 +2428,12 @@ def _b_list(it, src=None):
     if isinstance(src, Stream):
         it.emit(Ev('Drain', src=src, how='list'))
         src.drained = True
-        return SymList(SymSeq('all(%s)' % src.name, z3.Const('all_' + src.name, IntS), None), [])
+        ln = it.fresh('drained_len', IntS)
+        it.assume(ln >= 0)
+        r = taken_list(it, src, ln)
+        r.prefix.name = 'all(%s)' % src.name
+        r.prefix.term = z3.Const('all_' + src.name, IntS)
+        return r
     if isinstance(src, GenObj):
         q = src.fn.qualname
         if q in it.inline or '*' in it.inline:
@@ -2321,6 +2454,25 @@ def _b_list(it, src=None):
         return src
     if isinstance(src, SymSource):
         return src
+    if src.__class__.__name__ == 'IsliceV' and len(src.args) == 1:
+        # list(islice(stream, n)): pulls min(n, remaining) elements now -- a `Take` event on the stream -- and keeps them as
+        # an opaque list `taken` of that (symbolic) length; the stream stays usable for the rest
+        inner = src.src
+        if inner.__class__.__name__ == 'ChainV':
+            # islice over chain(..., stream): may pull from the first stream part (over-approximation: a Take on it)
+            sts = [p for p in inner.parts if isinstance(p, Stream)]
+            inner = sts[0] if sts else inner
+        st = inner if isinstance(inner, Stream) else (inner.attrs.get('__iter__') if isinstance(inner, Opaque) else None)
+        if isinstance(st, Stream):
+            n = src.args[0]
+            ln = it.fresh('taken_len', IntS)
+            it.assume(z3.And(ln >= 0, ln <= term(n, IntS)))
+            if st.may_raise and it.decide(2, lambda i: True) == 1:
+                e = symbolic_exception(it, 'upstream_exc')
+                it.emit(Ev('PullRaises', src=st.name, exc=e, label='islice'))
+                raise PyExc(e)
+            it.emit(Ev('Take', src=st, n=n, length=ln))
+            return taken_list(it, st, ln, exact=inner is src.src)
     kind, items = iterate(it, src)
     if kind == 'concrete':
         return PyList(items)
@@ -2442,6 +2594,8 @@ def _b_enumerate(it, src, start=0):
 def _b_zip(it, *srcs):
     lists = []
     for s in srcs:
+        if isinstance(s, (Stream, Opaque, SymList, SymSource)) and not (isinstance(s, SymList) and s.prefix is None):
+            return ZipLongestSource(it, list(srcs), shortest=True)
         kind, items = iterate(it, s)
         if kind != 'concrete':
             raise Unsupported('zip of symbolic iterable')
